@@ -11,6 +11,7 @@ import (
 // c08Extra: R8 a return statement always sets the value it returns (nil for a bare return); R9 one truthiness test.
 func c08Extra(p *Program, r *Report) {
 	r.Explain("R8 the return handler leaves in the value cell only what it evaluated itself: on every path to one of its exits the cell was stored by the handler (the nil value for a bare return) or by the evaluation of the return expression, never the value the previous statement left. " +
+		"R10 in every script-level loop (for-in over slices, maps and channels, the C-style loop, the condition loop) the back edge is reached only through the evaluation of the body: no element or turn is skipped. " +
 		"R9 every construct that branches on a script value (if / else-if, the two loop forms, ?:, &&, ||, !) decides with one and the same truthiness function applied to the evaluated value; a branch decided by another test on that value (its kind, Bool(), Len() ...) is reported.")
 	m, err := buildVMModel(p)
 	if err != nil {
@@ -39,6 +40,7 @@ func c08Extra(p *Program, r *Report) {
 		}
 		r.Floor("C08.R8", k, 1)
 	}
+	c08BodyEveryIteration(p, r, m)
 	// R9
 	type site struct {
 		fn     *ssa.Function
@@ -133,6 +135,46 @@ func c08Extra(p *Program, r *Report) {
 		}
 	}
 	r.Floor("C08.R9", count[pred], 8)
+}
+
+// c08BodyEveryIteration (R10): in every script-level loop, an iteration that goes round (reaches the back edge) has run the body.
+func c08BodyEveryIteration(p *Program, r *Report, m *vmModel) {
+	va := buildEvalAnalysis(m)
+	aa := newAddrAnalysis(m, nil, nil)
+	set := c10HandlerSet(m, aa, "ForStmt", "CForStmt", "LoopStmt")
+	var fns []*ssa.Function
+	for fn := range set {
+		fns = append(fns, fn)
+	}
+	sort.Slice(fns, func(i, j int) bool { return funcName(fns[i]) < funcName(fns[j]) })
+	n := 0
+	for _, fn := range fns {
+		for _, lp := range loopsOf(fn) {
+			// the body: a statement evaluation inside this loop
+			body := map[*ssa.BasicBlock]bool{}
+			for _, e := range va.events[fn] {
+				if e.role == "stmt" && lp.Body[e.call.Block()] {
+					body[e.call.Block()] = true
+				}
+			}
+			if len(body) == 0 {
+				continue
+			}
+			n++
+			bad := ""
+			if !body[lp.Header] {
+				reach := reachable(lp.Header, func(b *ssa.BasicBlock) bool { return b != lp.Header && (body[b] || !lp.Body[b]) })
+				for _, pr := range lp.Header.Preds {
+					if lp.Body[pr] && reach[pr] && !body[pr] {
+						bad = p.Pos(instrPos(pr.Instrs[len(pr.Instrs)-1]))
+					}
+				}
+			}
+			r.Check(bad == "", "C08.R10", fmt.Sprintf("%s|every iteration runs the body", funcName(fn)), p.Pos(instrPos(lp.Header.Instrs[0])), "the back edge is reached only through the body",
+				"an iteration can go round (back edge at "+bad+") without running the body: an element (or a turn of the loop) is silently skipped")
+		}
+	}
+	r.Floor("C08.R10", n, 4)
 }
 
 // valueOfEvaluation: v is the value an evaluation left in the value cell (a load of the cell, or an unwrapping of it).
